@@ -149,6 +149,14 @@ def worker(args):
                 sg[rng.choice(op)] = ""
                 s = "/".join(sg)
         rec.ev()
+        if rng.random() < 0.08 and "?" not in s:
+            # a Sid with the same type and fields but ANOTHER string (it carries a query that is refused) is built first:
+            # the forms below must still give the canonical Sid, not that one
+            try:
+                Sid(s + rng.choice(["?zzkey=1", "?zzkey=1&yy=2", "?=", "?zz"]))
+                rec.count("refused_query_twin_built_first")
+            except Exception:
+                pass        # (C01 / C04 judge what this construction itself does)
         x = check_one(rec, model, Sid, s, rng)
         if it % 1999 == 0 and x is not None:
             rec.sample({"string": s, "uri": x.uri, "query": x.as_query()})
